@@ -67,7 +67,14 @@ def run_stream(spec, stream, fail_at, nid, mode, val):
                                             "digest", args, {"step": i}))
                     return out, nraised
                 continue
-            survivors.append((r, w))  # the faulty quantity was never evaluated for this record
+            # no exception: the faulty quantity was not evaluated for this record - or its value was swallowed
+            try:
+                h.toJson()
+            except Exception as e2:
+                out.append(core.v_exc(PROP, "fault", "a wrong-typed value was accepted and the state can no longer be serialised",
+                                      e2, args, {"step": i, "failing_node": node["t"]}))
+                return out, nraised
+            survivors.append((r, w))
         else:
             try:
                 h.fill(A.fresh(r), w)
@@ -79,7 +86,12 @@ def run_stream(spec, stream, fail_at, nid, mode, val):
         # weights such as 0.1: float sums round, the exact reference does not; "unchanged by a fill that raised" above
         # was compared bit for bit and is the whole oracle here
         return out, nraised
-    d = core.ref_diff(h, spec, survivors, drop_names=True)
+    try:
+        d = core.ref_diff(h, spec, survivors, drop_names=True)
+    except Exception as e:
+        # a wrong-typed value was swallowed without an exception and now sits in an accumulator
+        out.append(core.v_exc(PROP, "fault", "state cannot be serialised after the stream (a faulty record was accepted)", e, args))
+        return out, nraised
     if d:
         out.append(core.v_diff(PROP, "fault", "final state differs from the aggregate of the surviving records", d,
                                h.toJson(), args))
